@@ -1,5 +1,6 @@
 (* C16 — no-format payloads come back exactly, in order, under their object. Statements only. *)
 From DV Require Import Model.Reader Model.Iflr Proofs.SegmentP Proofs.IflrP.
+From DV Require Import Model.ApiDispatch Proofs.FileP.
 
 (* the body of a no-format record is the object reference followed by exactly the payload: the standard reader
    gets the reference and the payload back, nothing appended, removed or altered (any length, also 0) *)
@@ -18,6 +19,24 @@ Theorem C16_file : forall c recs bs,
   read_records c bs = Some (filter nonempty_body recs).
 Proof. exact read_write_file. Qed.
 
+(* over the modelled API: the records of a logical file are its explicitly formatted records, then ONE type-1 record per
+   add_no_format_frame_data call, in call order, whose body is the reference to the object given in that call followed by
+   that call's payload (nofmt_rel, printed below; C16_body then gives the decoded pair), then the frame data *)
+Print nofmt_rel.
+Theorem C16_api_records : forall st f frames st' recs,
+  lf_records st f frames = OK (st', recs) ->
+  exists pre nf fd, recs = pre ++ nf ++ fd
+    /\ Forall (fun r => lr_eflr r = true) pre
+    /\ Forall2 (nofmt_rel st') (l_nofmt f) nf
+    /\ Forall (fun r => lr_eflr r = false /\ lr_type r = 0) fd.
+Proof. exact lf_nofmt_records. Qed.
+
+(* and the calls are recorded in call order: an accepted add_no_format_frame_data appends its (object, payload) pair *)
+Theorem C16_call_order : forall st l obj p st',
+  add_nofmt_data st l obj p = (st', Accepted None) ->
+  exists f f', lf_at st l = Some f /\ lf_at st' l = Some f' /\ l_nofmt f' = l_nofmt f ++ [(obj, p)].
+Proof. exact nofmt_call_appends. Qed.
+
 Example C16_ex :
   let o := {| on_origin := Some 1; on_copy := 0; on_name := [78] |} in
   nofmt_body o (PText [97; 98]) = OK [1; 0; 1; 78; 97; 98] /\ nofmt_body o (PBytes []) = OK [1; 0; 1; 78]
@@ -27,3 +46,5 @@ Proof. vm_compute. repeat split. Qed.
 Print Assumptions C16_body.
 Print Assumptions C16_kept.
 Print Assumptions C16_file.
+Print Assumptions C16_api_records.
+Print Assumptions C16_call_order.
